@@ -344,51 +344,107 @@ Proof.
 Qed.
 
 (* ---- several paths ---------------------------------------------------------------------------------- *)
+(* the cut positions of one string, one per limit that its unescaped length exceeds *)
+Definition field_poss (at_ : Z) (raw : bytes) (strlen : Z) (ls : list Z) : list (Z * Z) :=
+  flat_map (fun l => if strlen <=? l then []
+                     else [(at_ + Z.of_nat (json_kept raw strlen l) + 1, at_ + len raw)]) ls.
+
 (* the cut positions of the fields in document order *)
 Fixpoint jf_poss (at_ : Z) (fs : list jfield) : list (Z * Z) :=
   match fs with
   | [] => []
-  | (raw, post, strlen, limit) :: r =>
-      (if strlen <=? limit then [] else [(at_ + Z.of_nat (json_kept raw strlen limit) + 1, at_ + len raw)])
-      ++ jf_poss (at_ + len raw + 2 + len post) r
+  | (raw, post, strlen, limit, more) :: r =>
+      field_poss at_ raw strlen (limit :: more) ++ jf_poss (at_ + len raw + 2 + len post) r
   end.
 
 Definition pos_list (data : bytes) (x : Z * Z * Z) : list (Z * Z) :=
   let '(index, strlen, limit) := x in
   match json_cut_pos data index strlen limit with Ok (Some p) => [p] | _ => [] end.
 
-Lemma jf_doc_cons raw post strlen limit r :
-  jf_doc ((raw, post, strlen, limit) :: r) = QUOTE :: raw ++ QUOTE :: post ++ jf_doc r.
+Lemma jf_doc_cons raw post strlen limit more r :
+  jf_doc ((raw, post, strlen, limit, more) :: r) = QUOTE :: raw ++ QUOTE :: post ++ jf_doc r.
 Proof. reflexivity. Qed.
 
-Lemma jf_cut_cons raw post strlen limit r :
-  jf_cut ((raw, post, strlen, limit) :: r) =
-  QUOTE :: firstn (json_kept raw strlen limit) raw ++ QUOTE :: post ++ jf_cut r.
+Lemma jf_cut_cons raw post strlen limit more r :
+  jf_cut ((raw, post, strlen, limit, more) :: r) =
+  QUOTE :: firstn (json_kept raw strlen (jf_limit limit more)) raw ++ QUOTE :: post ++ jf_cut r.
 Proof. reflexivity. Qed.
+
+Lemma jf_ok_inv raw post strlen limit more :
+  jf_ok (raw, post, strlen, limit, more) -> esc_valid raw = true /\ Forall (fun l => 0 <= l) (limit :: more).
+Proof. unfold jf_ok. intros (Hv & Hl & Hm). split; [exact Hv|constructor; assumption]. Qed.
+
+(* the smallest limit of a string is one of its limits *)
+Lemma jf_limit_in limit more : In (jf_limit limit more) (limit :: more).
+Proof.
+  induction more as [|m more IH]; [left; reflexivity|]. unfold jf_limit in *. cbn [fold_right].
+  destruct (Z.min_spec m (fold_right Z.min limit more)) as [[_ ->]|[_ ->]].
+  - right. left. reflexivity.
+  - destruct IH as [IH|IH]; [left; exact IH|right; right; exact IH].
+Qed.
+
+Lemma jf_limit_le limit more l : In l (limit :: more) -> jf_limit limit more <= l.
+Proof.
+  induction more as [|m more IH]; intros H.
+  - destruct H as [->|[]]. unfold jf_limit. cbn. lia.
+  - unfold jf_limit in *. cbn [fold_right]. destruct H as [->|[->|H]].
+    + specialize (IH (or_introl eq_refl)). lia.
+    + lia.
+    + specialize (IH (or_intror H)). lia.
+Qed.
+
+(* a larger limit keeps at least as much *)
+Lemma json_kept_mono raw strlen l1 l2 : esc_valid raw = true -> 0 <= l1 <= l2 ->
+  (json_kept raw strlen l1 <= json_kept raw strlen l2)%nat.
+Proof.
+  intros Hv Hl.
+  pose proof (json_kept_spec raw strlen l1 Hv ltac:(lia)) as (A1 & A2 & A3 & A4).
+  pose proof (json_kept_spec raw strlen l2 Hv ltac:(lia)) as (B1 & B2 & B3 & B4).
+  destruct (Z_le_gt_dec strlen l2) as [H2|H2]; [rewrite (B3 H2); exact A1|].
+  destruct (A4 ltac:(lia)) as (A5 & _). destruct (B4 ltac:(lia)) as (_ & B6 & _).
+  destruct (le_lt_dec (json_kept raw strlen l1) (json_kept raw strlen l2)) as [H|H]; [exact H|].
+  rewrite (B6 (json_kept raw strlen l1)) in A2; [discriminate|lia|lia].
+Qed.
 
 (* every position is found on the original document *)
+Lemma json_find_field data pre raw post strlen : esc_valid raw = true ->
+  data = pre ++ QUOTE :: raw ++ QUOTE :: post ->
+  forall ls, Forall (fun l => 0 <= l) ls ->
+  (forall x, In x (map (fun l => (len pre, strlen, l)) ls) ->
+     exists p, (let '(index, strlen, limit) := x in json_cut_pos data index strlen limit) = Ok p) /\
+  flat_map (pos_list data) (map (fun l => (len pre, strlen, l)) ls) = field_poss (len pre) raw strlen ls.
+Proof.
+  intros Hv Hd. induction ls as [|l ls IH]; intros Hls; [split; [intros x []|reflexivity]|].
+  inversion Hls as [|l' ls' Hl Hr]; subst l' ls'. destruct (IH Hr) as [IH1 IH2].
+  assert (E1 : json_cut_pos data (len pre) strlen l =
+               Ok (if strlen <=? l then None
+                   else Some (len pre + Z.of_nat (json_kept raw strlen l) + 1, len pre + len raw))).
+  { rewrite Hd. apply json_cut_pos_doc; assumption. }
+  cbn [map flat_map]. split.
+  - intros x [<-|Hx]; [eexists; exact E1|apply IH1; exact Hx].
+  - rewrite IH2. unfold field_poss. cbn [flat_map]. f_equal. unfold pos_list. rewrite E1.
+    destruct (strlen <=? l); reflexivity.
+Qed.
+
 Lemma json_find_each : forall fs pre data, data = pre ++ jf_doc fs -> Forall jf_ok fs ->
   (forall x, In x (jf_found (len pre) fs) ->
      exists p, (let '(index, strlen, limit) := x in json_cut_pos data index strlen limit) = Ok p) /\
   flat_map (pos_list data) (jf_found (len pre) fs) = jf_poss (len pre) fs.
 Proof.
-  induction fs as [|[[[raw post] strlen] limit] r IH]; intros pre data Hd Hok.
+  induction fs as [|[[[[raw post] strlen] limit] more] r IH]; intros pre data Hd Hok.
   - split; [intros x []|reflexivity].
-  - inversion Hok as [|f r' Hf Hr]; subst f r'. unfold jf_ok in Hf. destruct Hf as [Hv Hl].
+  - inversion Hok as [|f r' Hf Hr]; subst f r'. apply jf_ok_inv in Hf. destruct Hf as [Hv Hls].
     rewrite jf_doc_cons in Hd.
-    assert (E1 : json_cut_pos data (len pre) strlen limit =
-                 Ok (if strlen <=? limit then None
-                     else Some (len pre + Z.of_nat (json_kept raw strlen limit) + 1, len pre + len raw))).
-    { rewrite Hd. apply json_cut_pos_doc; assumption. }
+    destruct (json_find_field data pre raw (post ++ jf_doc r) strlen Hv Hd (limit :: more) Hls) as [F1 F2].
     set (pre' := pre ++ QUOTE :: raw ++ QUOTE :: post).
     assert (Hd' : data = pre' ++ jf_doc r).
     { rewrite Hd. unfold pre'. rewrite <- !app_assoc. cbn [app]. rewrite <- !app_assoc. reflexivity. }
     assert (Hl' : len pre' = len pre + len raw + 2 + len post).
     { unfold pre'. rewrite len_app, len_cons, len_app, len_cons. lia. }
     destruct (IH pre' data Hd' Hr) as [IH1 IH2]. rewrite Hl' in IH1, IH2.
-    cbn [jf_found jf_poss flat_map]. split.
-    + intros x [<-|Hx]; [eexists; exact E1|apply IH1; exact Hx].
-    + rewrite IH2. f_equal. unfold pos_list. rewrite E1. destruct (strlen <=? limit); reflexivity.
+    cbn [jf_found jf_poss]. split.
+    + intros x Hx. apply in_app_or in Hx. destruct Hx as [Hx|Hx]; [apply F1; exact Hx|apply IH1; exact Hx].
+    + rewrite flat_map_app, F2, IH2. reflexivity.
 Qed.
 
 Lemma json_find_all_ok data : forall found,
@@ -402,10 +458,9 @@ Proof.
   rewrite IH by (intros x Hx; apply H; right; exact Hx). cbn [bind]. destruct p; reflexivity.
 Qed.
 
-(* sorting: a permutation of a list with strictly ascending starts sorts to its reverse *)
+(* sorting: the result is determined by the multiset when equal starts mean equal positions *)
 Definition pos_ge (a b : Z * Z) : Prop := fst b <= fst a.
-Definition pos_gt (a b : Z * Z) : Prop := fst b < fst a.
-Definition pos_lt (a b : Z * Z) : Prop := fst a < fst b.
+Definition key_inj (l : list (Z * Z)) : Prop := forall x y, In x l -> In y l -> fst x = fst y -> x = y.
 
 Lemma insert_desc_perm p l : Permutation (insert_desc p l) (p :: l).
 Proof.
@@ -437,92 +492,218 @@ Proof.
   apply insert_desc_sorted. exact IH.
 Qed.
 
-Lemma sorted_unique : forall l1 l2, Permutation l1 l2 ->
-  StronglySorted pos_ge l1 -> StronglySorted pos_gt l2 -> l1 = l2.
+Lemma key_inj_perm l l' : Permutation l l' -> key_inj l -> key_inj l'.
 Proof.
-  induction l1 as [|a l1 IH]; intros l2 Hp H1 H2.
+  intros Hp H x y Hx Hy. apply H; eapply Permutation_in; try (symmetry; exact Hp); assumption.
+Qed.
+
+Lemma key_inj_tail a l : key_inj (a :: l) -> key_inj l.
+Proof. intros H x y Hx Hy. apply H; right; assumption. Qed.
+
+Lemma sorted_unique : forall l1 l2, Permutation l1 l2 ->
+  StronglySorted pos_ge l1 -> StronglySorted pos_ge l2 -> key_inj l2 -> l1 = l2.
+Proof.
+  induction l1 as [|a l1 IH]; intros l2 Hp H1 H2 Hk.
   - apply Permutation_nil in Hp. subst. reflexivity.
   - destruct l2 as [|b l2]; [symmetry in Hp; apply Permutation_nil in Hp; discriminate|].
     inversion H1 as [|a' l1' S1 F1]; subst a' l1'. inversion H2 as [|b' l2' S2 F2]; subst b' l2'.
+    assert (Ia : In a (b :: l2)) by (eapply Permutation_in; [exact Hp|left; reflexivity]).
+    assert (Ib : In b (a :: l1)) by (eapply Permutation_in; [symmetry; exact Hp|left; reflexivity]).
     assert (E : a = b).
-    { assert (Ia : In a (b :: l2)) by (eapply Permutation_in; [exact Hp|left; reflexivity]).
-      assert (Ib : In b (a :: l1)) by (eapply Permutation_in; [symmetry; exact Hp|left; reflexivity]).
+    { apply Hk; [exact Ia|left; reflexivity|].
       destruct Ia as [->|Ia]; [reflexivity|]. destruct Ib as [->|Ib]; [reflexivity|].
       rewrite Forall_forall in F1, F2. specialize (F1 b Ib). specialize (F2 a Ia).
-      unfold pos_ge, pos_gt in *. lia. }
-    subst b. f_equal. apply IH; [eapply Permutation_cons_inv; exact Hp|exact S1|exact S2].
+      unfold pos_ge in *. lia. }
+    subst b. f_equal.
+    apply IH; [eapply Permutation_cons_inv; exact Hp|exact S1|exact S2|eapply key_inj_tail; exact Hk].
 Qed.
 
-Lemma rev_sorted l : StronglySorted pos_lt l -> StronglySorted pos_gt (rev l).
+Lemma sort_desc_congr l l' : Permutation l l' -> key_inj l' -> sort_desc l = sort_desc l'.
 Proof.
-  induction l as [|a l IH]; intros H; [constructor|]. inversion H as [|a' l' S F]; subst a' l'.
-  cbn [rev]. specialize (IH S). clear H S.
-  induction (rev l) as [|x r IHr] eqn:Er in IH, F |- *.
-  - constructor; constructor.
-  - assert (Fr : Forall (pos_lt a) (x :: r)).
-    { rewrite <- Er. eapply Permutation_Forall; [apply Permutation_rev|exact F]. }
-    clear F Er. revert IH Fr. generalize (x :: r). clear.
-    induction l as [|y l IHl]; intros S F; [constructor; constructor|].
-    inversion S as [|y' l' S' F']; subst y' l'. inversion F as [|y' l' Fy Fl]; subst y' l'.
-    cbn [app]. constructor; [apply IHl; assumption|].
-    apply Forall_app. split; [exact F'|]. constructor; [unfold pos_gt, pos_lt in *; lia|constructor].
+  intros Hp Hk. apply sorted_unique; [|apply sort_desc_sorted|apply sort_desc_sorted|].
+  - rewrite !sort_desc_perm. exact Hp.
+  - eapply key_inj_perm; [symmetry; apply sort_desc_perm|exact Hk].
 Qed.
 
-Lemma sort_desc_of_perm l asc : Permutation l asc -> StronglySorted pos_lt asc -> sort_desc l = rev asc.
+Lemma sorted_app (l1 l2 : list (Z * Z)) :
+  StronglySorted pos_ge l1 -> StronglySorted pos_ge l2 ->
+  (forall x y, In x l1 -> In y l2 -> pos_ge x y) -> StronglySorted pos_ge (l1 ++ l2).
 Proof.
-  intros Hp Hs. apply sorted_unique; [|apply sort_desc_sorted|apply rev_sorted; exact Hs].
-  rewrite sort_desc_perm, Hp. apply Permutation_rev.
+  induction l1 as [|a l1 IH]; intros H1 H2 Hc; [exact H2|].
+  inversion H1 as [|a' l1' S1 F1]; subst a' l1'. cbn [app]. constructor.
+  - apply IH; [exact S1|exact H2|]. intros x y Hx Hy. apply Hc; [right; exact Hx|exact Hy].
+  - apply Forall_app. split; [exact F1|]. apply Forall_forall. intros y Hy. apply Hc; [left; reflexivity|exact Hy].
 Qed.
 
-(* the positions of the fields are strictly ascending *)
-Lemma jf_poss_after : forall fs at_, Forall jf_ok fs -> Forall (fun p => at_ < fst p) (jf_poss at_ fs).
+(* a group of smaller starts sorts behind a group of larger starts *)
+Lemma sort_desc_app a b : (forall x y, In x a -> In y b -> fst x < fst y) -> key_inj (a ++ b) ->
+  sort_desc (a ++ b) = sort_desc b ++ sort_desc a.
 Proof.
-  induction fs as [|[[[raw post] strlen] limit] r IH]; intros at_ Hok; [constructor|].
-  inversion Hok as [|f r' Hf Hr]; subst f r'. unfold jf_ok in Hf. destruct Hf as [Hv Hl]. cbn [jf_poss]. apply Forall_app. split.
-  - destruct (strlen <=? limit); constructor; [cbn [fst]; lia|constructor].
+  intros Hc Hk. apply sorted_unique.
+  - rewrite !sort_desc_perm. apply Permutation_app_comm.
+  - apply sort_desc_sorted.
+  - apply sorted_app; try apply sort_desc_sorted. intros x y Hx Hy.
+    apply (Permutation_in _ (sort_desc_perm b)) in Hx. apply (Permutation_in _ (sort_desc_perm a)) in Hy.
+    specialize (Hc y x Hy Hx). unfold pos_ge. lia.
+  - eapply key_inj_perm; [|exact Hk]. rewrite !sort_desc_perm. apply Permutation_app_comm.
+Qed.
+
+(* where the positions lie *)
+Lemma field_poss_in at_ raw strlen ls p : esc_valid raw = true -> Forall (fun l => 0 <= l) ls ->
+  In p (field_poss at_ raw strlen ls) ->
+  exists l, In l ls /\ l < strlen /\ p = (at_ + Z.of_nat (json_kept raw strlen l) + 1, at_ + len raw) /\
+            at_ < fst p <= at_ + len raw + 1.
+Proof.
+  intros Hv Hls Hp. unfold field_poss in Hp. apply in_flat_map in Hp. destruct Hp as (l & Hl & Hp).
+  destruct (strlen <=? l) eqn:E; [destruct Hp|]. destruct Hp as [<-|[]].
+  rewrite Forall_forall in Hls. pose proof (json_kept_spec raw strlen l Hv (Hls l Hl)) as (Hk & _).
+  exists l. split; [exact Hl|]. split; [lia|]. split; [reflexivity|]. cbn [fst]. unfold len. lia.
+Qed.
+
+Lemma jf_poss_after : forall fs at_, Forall jf_ok fs ->
+  Forall (fun p => at_ < fst p /\ at_ <= snd p) (jf_poss at_ fs).
+Proof.
+  induction fs as [|[[[[raw post] strlen] limit] more] r IH]; intros at_ Hok; [constructor|].
+  inversion Hok as [|f r' Hf Hr]; subst f r'. apply jf_ok_inv in Hf. destruct Hf as [Hv Hls].
+  cbn [jf_poss]. apply Forall_app. split.
+  - apply Forall_forall. intros p Hp. destruct (field_poss_in _ _ _ _ _ Hv Hls Hp) as (l & _ & _ & -> & Hb).
+    cbn [fst snd] in *. pose proof (len_nonneg raw). lia.
   - eapply Forall_impl; [|apply IH; exact Hr]. cbn beta. intros p Hp.
     pose proof (len_nonneg raw). pose proof (len_nonneg post). lia.
 Qed.
 
-Lemma jf_poss_sorted : forall fs at_, Forall jf_ok fs -> StronglySorted pos_lt (jf_poss at_ fs).
+Lemma field_poss_key_inj at_ raw strlen ls : key_inj (field_poss at_ raw strlen ls).
 Proof.
-  induction fs as [|[[[raw post] strlen] limit] r IH]; intros at_ Hok; [constructor|].
-  inversion Hok as [|f r' Hf Hr]; subst f r'. unfold jf_ok in Hf. destruct Hf as [Hv Hl]. cbn [jf_poss].
-  destruct (strlen <=? limit); cbn [app]; [apply IH; exact Hr|].
-  constructor; [apply IH; exact Hr|].
-  eapply Forall_impl; [|apply jf_poss_after; exact Hr]. cbn beta. unfold pos_lt. cbn [fst]. intros p Hp.
-  pose proof (json_kept_spec raw strlen limit Hv Hl) as (Hk & _). pose proof (len_nonneg post). unfold len in *. lia.
+  intros x y Hx Hy E. unfold field_poss in *. apply in_flat_map in Hx, Hy.
+  destruct Hx as (l1 & _ & Hx), Hy as (l2 & _ & Hy).
+  destruct (strlen <=? l1); [destruct Hx|]. destruct (strlen <=? l2); [destruct Hy|].
+  destruct Hx as [<-|[]], Hy as [<-|[]]. cbn [fst] in E. f_equal. exact E.
 Qed.
 
-Lemma json_cut_all_app : forall a b data,
+Lemma jf_poss_key_inj : forall fs at_, Forall jf_ok fs -> key_inj (jf_poss at_ fs).
+Proof.
+  induction fs as [|[[[[raw post] strlen] limit] more] r IH]; intros at_ Hok; [intros x y []|].
+  inversion Hok as [|f r' Hf Hr]; subst f r'. apply jf_ok_inv in Hf. destruct Hf as [Hv Hls].
+  cbn [jf_poss]. intros x y Hx Hy E. apply in_app_or in Hx, Hy.
+  pose proof (jf_poss_after r (at_ + len raw + 2 + len post) Hr) as Ha. rewrite Forall_forall in Ha.
+  pose proof (len_nonneg post).
+  destruct Hx as [Hx|Hx], Hy as [Hy|Hy].
+  - apply (field_poss_key_inj at_ raw strlen (limit :: more)); assumption.
+  - destruct (field_poss_in _ _ _ _ _ Hv Hls Hx) as (_ & _ & _ & _ & Hb). specialize (Ha y Hy). lia.
+  - destruct (field_poss_in _ _ _ _ _ Hv Hls Hy) as (_ & _ & _ & _ & Hb). specialize (Ha x Hx). lia.
+  - apply (IH (at_ + len raw + 2 + len post) Hr); assumption.
+Qed.
+
+(* the sorted positions: last string first, the positions of one string together *)
+Fixpoint jf_sorted (at_ : Z) (fs : list jfield) : list (Z * Z) :=
+  match fs with
+  | [] => []
+  | (raw, post, strlen, limit, more) :: r =>
+      jf_sorted (at_ + len raw + 2 + len post) r ++ sort_desc (field_poss at_ raw strlen (limit :: more))
+  end.
+
+Lemma jf_poss_sorted : forall fs at_, Forall jf_ok fs -> sort_desc (jf_poss at_ fs) = jf_sorted at_ fs.
+Proof.
+  induction fs as [|[[[[raw post] strlen] limit] more] r IH]; intros at_ Hok; [reflexivity|].
+  inversion Hok as [|f r' Hf Hr]; subst f r'. pose proof Hf as Hf'. apply jf_ok_inv in Hf. destruct Hf as [Hv Hls].
+  cbn [jf_poss jf_sorted]. rewrite sort_desc_app.
+  - rewrite IH by exact Hr. reflexivity.
+  - intros x y Hx Hy. destruct (field_poss_in _ _ _ _ _ Hv Hls Hx) as (_ & _ & _ & _ & Hb).
+    pose proof (jf_poss_after r (at_ + len raw + 2 + len post) Hr) as Ha. rewrite Forall_forall in Ha.
+    specialize (Ha y Hy). pose proof (len_nonneg post). lia.
+  - apply (jf_poss_key_inj ((raw, post, strlen, limit, more) :: r) at_). exact Hok.
+Qed.
+
+(* the cuts: positions with different ends are cut independently *)
+Lemma json_cut_all_app : forall a b data, (forall x y, In x a -> In y b -> snd y <> snd x) ->
   json_cut_all data (a ++ b) = (d <- json_cut_all data a ;; json_cut_all d b).
 Proof.
-  induction a as [|p a IH]; intros b data; [reflexivity|]. cbn [app json_cut_all].
-  destruct (json_cut_at data p); cbn [bind]; [apply IH|reflexivity|reflexivity].
+  induction a as [|p a IH]; intros b data Hc; [reflexivity|].
+  destruct a as [|q a].
+  - cbn [app]. destruct b as [|y b].
+    + cbn [json_cut_all]. destruct (json_cut_at data p); reflexivity.
+    + cbn [json_cut_all]. specialize (Hc p y (or_introl eq_refl) (or_introl eq_refl)).
+      replace (snd y =? snd p) with false by lia. destruct (json_cut_at data p); reflexivity.
+  - change ((p :: q :: a) ++ b) with (p :: (q :: a) ++ b). cbn [json_cut_all app].
+    assert (Hc' : forall x y, In x (q :: a) -> In y b -> snd y <> snd x)
+      by (intros x y Hx Hy; apply Hc; [right; exact Hx|exact Hy]).
+    destruct (snd q =? snd p).
+    + apply (IH b data Hc').
+    + destruct (json_cut_at data p) as [d|e|e]; cbn [bind]; [apply (IH b d Hc')|reflexivity|reflexivity].
 Qed.
 
-(* cutting from the last position to the first: no cut moves a position that is still to be cut *)
-Lemma json_cut_all_doc : forall fs pre, Forall jf_ok fs ->
-  json_cut_all (pre ++ jf_doc fs) (rev (jf_poss (len pre) fs)) = Ok (pre ++ jf_cut fs).
+(* positions with the same end: only the last one - the smallest start - is cut *)
+Lemma json_cut_all_group data e pstar : forall S,
+  StronglySorted pos_ge S -> In pstar S -> Forall (fun p => snd p = e) S ->
+  (forall p, In p S -> fst pstar <= fst p) ->
+  json_cut_all data S = json_cut_at data pstar.
 Proof.
-  induction fs as [|[[[raw post] strlen] limit] r IH]; intros pre Hok; [reflexivity|].
-  inversion Hok as [|f r' Hf Hr]; subst f r'. unfold jf_ok in Hf. destruct Hf as [Hv Hl].
-  cbn [jf_poss]. rewrite rev_app_distr, json_cut_all_app, jf_doc_cons, jf_cut_cons.
+  induction S as [|x S IH]; intros Hs Hin He Hmin; [destruct Hin|].
+  inversion Hs as [|x' S' Ss Fx]; subst x' S'. inversion He as [|x' S' Ex Es]; subst x' S'.
+  destruct S as [|y S].
+  - destruct Hin as [->|[]]. cbn [json_cut_all]. destruct (json_cut_at data pstar); reflexivity.
+  - cbn [json_cut_all]. inversion Es as [|y' S' Ey _]; subst y' S'.
+    replace (snd y =? snd x) with true by lia. apply IH; [exact Ss| |exact Es|].
+    + destruct Hin as [<-|Hin]; [|exact Hin]. left.
+      inversion Fx as [|y' S' Fy _]; subst y' S'. unfold pos_ge in Fy.
+      specialize (Hmin y (or_intror (or_introl eq_refl))).
+      destruct x as [x1 x2], y as [y1 y2]. cbn [fst snd] in *. f_equal; lia.
+    + intros p Hp. apply Hmin. right. exact Hp.
+Qed.
+
+Lemma field_poss_nil at_ raw strlen ls : (forall l, In l ls -> strlen <= l) -> field_poss at_ raw strlen ls = [].
+Proof.
+  induction ls as [|l ls IH]; intros H; [reflexivity|]. unfold field_poss in *. cbn [flat_map].
+  replace (strlen <=? l) with true by (specialize (H l (or_introl eq_refl)); lia).
+  apply IH. intros l' Hl'. apply H. right. exact Hl'.
+Qed.
+
+Lemma json_cut_all_doc : forall fs pre, Forall jf_ok fs ->
+  json_cut_all (pre ++ jf_doc fs) (jf_sorted (len pre) fs) = Ok (pre ++ jf_cut fs).
+Proof.
+  induction fs as [|[[[[raw post] strlen] limit] more] r IH]; intros pre Hok; [reflexivity|].
+  inversion Hok as [|f r' Hf Hr]; subst f r'. apply jf_ok_inv in Hf. destruct Hf as [Hv Hls].
+  cbn [jf_sorted]. rewrite jf_doc_cons, jf_cut_cons.
   set (pre' := pre ++ QUOTE :: raw ++ QUOTE :: post).
   assert (Hl' : len pre' = len pre + len raw + 2 + len post).
   { unfold pre'. rewrite len_app, len_cons, len_app, len_cons. lia. }
+  set (F := field_poss (len pre) raw strlen (limit :: more)).
+  rewrite json_cut_all_app.
+  2:{ intros x y Hx Hy. rewrite <- jf_poss_sorted in Hx by exact Hr.
+      apply (Permutation_in _ (sort_desc_perm _)) in Hx. apply (Permutation_in _ (sort_desc_perm _)) in Hy.
+      pose proof (jf_poss_after r (len pre + len raw + 2 + len post) Hr) as Ha. rewrite Forall_forall in Ha. specialize (Ha x Hx).
+      destruct (field_poss_in _ _ _ _ _ Hv Hls Hy) as (l0 & _ & _ & Ey & _). rewrite Ey. cbn [snd].
+      pose proof (len_nonneg post). lia. }
   replace (pre ++ QUOTE :: raw ++ QUOTE :: post ++ jf_doc r) with (pre' ++ jf_doc r)
     by (unfold pre'; rewrite <- !app_assoc; cbn [app]; rewrite <- !app_assoc; reflexivity).
   rewrite <- Hl', IH by exact Hr. cbn [bind].
   replace (pre' ++ jf_cut r) with (pre ++ QUOTE :: raw ++ QUOTE :: (post ++ jf_cut r))
     by (unfold pre'; rewrite <- !app_assoc; cbn [app]; rewrite <- !app_assoc; reflexivity).
-  pose proof (json_kept_spec raw strlen limit Hv Hl) as (Hk & _ & Hfit & _).
-  destruct (strlen <=? limit) eqn:Es; cbn [rev app json_cut_all].
-  - rewrite Hfit by lia. rewrite firstn_all. reflexivity.
-  - rewrite json_cut_at_doc by exact Hk. reflexivity.
+  set (m := jf_limit limit more).
+  assert (Hm0 : 0 <= m) by (rewrite Forall_forall in Hls; apply Hls; apply jf_limit_in).
+  pose proof (json_kept_spec raw strlen m Hv Hm0) as (Hk & _ & Hfit & _).
+  destruct (Z_le_gt_dec strlen m) as [Hsm|Hsm].
+  - (* every limit fits: no position *)
+    unfold F. rewrite field_poss_nil by (intros l Hl; pose proof (jf_limit_le limit more l Hl); fold m in H; lia).
+    cbn [sort_desc fold_right json_cut_all]. rewrite Hfit by exact Hsm. rewrite firstn_all. reflexivity.
+  - set (pstar := (len pre + Z.of_nat (json_kept raw strlen m) + 1, len pre + len raw)).
+    assert (Hin : In pstar F).
+    { unfold F, field_poss. apply in_flat_map. exists m. split; [apply jf_limit_in|].
+      replace (strlen <=? m) with false by lia. left. reflexivity. }
+    rewrite (json_cut_all_group _ (len pre + len raw) pstar).
+    + apply json_cut_at_doc. exact Hk.
+    + apply sort_desc_sorted.
+    + eapply Permutation_in; [symmetry; apply sort_desc_perm|exact Hin].
+    + apply Forall_forall. intros p Hp. apply (Permutation_in _ (sort_desc_perm _)) in Hp.
+      destruct (field_poss_in _ _ _ _ _ Hv Hls Hp) as (l0 & _ & _ & -> & _). reflexivity.
+    + intros p Hp. apply (Permutation_in _ (sort_desc_perm _)) in Hp.
+      destruct (field_poss_in _ _ _ _ _ Hv Hls Hp) as (l & Hl & _ & -> & _). unfold pstar. cbn [fst].
+      pose proof (jf_limit_le limit more l Hl) as Hle. fold m in Hle.
+      pose proof (json_kept_mono raw strlen m l Hv ltac:(lia)). lia.
 Qed.
 
-(* gjson's answers arrive in the (random) iteration order of a Go map: any permutation *)
+(* gjson's answers arrive in the (random) iteration order of a Go map: any permutation; several of them
+   may name the same string *)
 Theorem json_cut_many_spec : forall pre fs found,
   Forall jf_ok fs -> Permutation found (jf_found (len pre) fs) ->
   json_cut_many (pre ++ jf_doc fs) found = Ok (pre ++ jf_cut fs).
@@ -530,10 +711,10 @@ Proof.
   intros pre fs found Hok Hp. unfold json_cut_many.
   destruct (json_find_each fs pre _ eq_refl Hok) as [Heach Hflat].
   rewrite json_find_all_ok by (intros x Hx; apply Heach; eapply Permutation_in; [exact Hp|exact Hx]).
-  cbn [bind]. rewrite (sort_desc_of_perm _ (jf_poss (len pre) fs)).
-  - apply json_cut_all_doc. exact Hok.
+  cbn [bind]. rewrite (sort_desc_congr _ (jf_poss (len pre) fs)).
+  - rewrite jf_poss_sorted by exact Hok. apply json_cut_all_doc. exact Hok.
   - rewrite <- Hflat. apply Permutation_flat_map. exact Hp.
-  - apply jf_poss_sorted. exact Hok.
+  - apply jf_poss_key_inj. exact Hok.
 Qed.
 
 (* ---- the runner's predicate (json_cut_framed) says what the theorems say --------------------------- *)
@@ -595,14 +776,47 @@ Qed.
 Fixpoint jf_strs (at_ : Z) (fs : list jfield) : list (Z * Z) :=
   match fs with
   | [] => []
-  | (raw, post, _, _) :: r => (at_, len raw) :: jf_strs (at_ + len raw + 2 + len post) r
+  | (raw, post, _, _, _) :: r => (at_, len raw) :: jf_strs (at_ + len raw + 2 + len post) r
   end.
+
+Lemma jf_strs_after : forall fs at_, match jf_strs at_ fs with [] => True | q :: _ => at_ <= fst q end.
+Proof. destruct fs as [|[[[[raw post] strlen] limit] more] r]; intros at_; cbn [jf_strs fst]; [exact I|lia]. Qed.
+
+(* several answers for one string name it once *)
+Definition named_step (data : bytes) (x : Z * Z * Z) (acc : option (list (Z * Z))) : option (list (Z * Z)) :=
+  let '(index, _, _) := x in
+  match acc, json_raw_len_at data index with
+  | Some l, Some rawlen => Some (insert_asc (index, rawlen) l)
+  | _, _ => None
+  end.
+
+Lemma json_named_strings_fold data found :
+  json_named_strings data found = fold_right (named_step data) (Some []) found.
+Proof.
+  induction found as [|[[index strlen] limit] r IH]; [reflexivity|].
+  unfold json_named_strings in *. cbn [fold_right]. rewrite IH. reflexivity.
+Qed.
+
+Lemma json_named_field data at_ strlen n (L : list (Z * Z)) :
+  json_raw_len_at data at_ = Some n ->
+  match L with [] => True | q :: _ => at_ < fst q end ->
+  forall ls l,
+  fold_right (named_step data) (Some L) (map (fun l => (at_, strlen, l)) (l :: ls)) = Some ((at_, n) :: L).
+Proof.
+  intros Hr HL. induction ls as [|l2 ls IH]; intros l.
+  - cbn [map fold_right named_step]. rewrite Hr. f_equal. destruct L as [|q L]; [reflexivity|]. cbn [insert_asc fst].
+    replace (at_ <? fst q) with true by lia. reflexivity.
+  - change (map (fun l0 => (at_, strlen, l0)) (l :: l2 :: ls))
+      with ((at_, strlen, l) :: map (fun l0 => (at_, strlen, l0)) (l2 :: ls)).
+    cbn [fold_right]. rewrite IH. cbn [named_step]. rewrite Hr. f_equal. cbn [insert_asc fst].
+    replace (at_ <? at_) with false by lia. replace (at_ =? at_) with true by lia. reflexivity.
+Qed.
 
 Lemma json_named_doc : forall fs pre data, data = pre ++ jf_doc fs -> Forall jf_ok fs ->
   json_named_strings data (jf_found (len pre) fs) = Some (jf_strs (len pre) fs).
 Proof.
-  induction fs as [|[[[raw post] strlen] limit] r IH]; intros pre data Hd Hok; [reflexivity|].
-  inversion Hok as [|f r' Hf Hr]; subst f r'. unfold jf_ok in Hf. destruct Hf as [Hv Hl].
+  induction fs as [|[[[[raw post] strlen] limit] more] r IH]; intros pre data Hd Hok; [reflexivity|].
+  inversion Hok as [|f r' Hf Hr]; subst f r'. apply jf_ok_inv in Hf. destruct Hf as [Hv Hls].
   rewrite jf_doc_cons in Hd.
   set (pre' := pre ++ QUOTE :: raw ++ QUOTE :: post).
   assert (Hd' : data = pre' ++ jf_doc r).
@@ -610,17 +824,18 @@ Proof.
   assert (Hl' : len pre' = len pre + len raw + 2 + len post).
   { unfold pre'. rewrite len_app, len_cons, len_app, len_cons. lia. }
   specialize (IH pre' data Hd' Hr). rewrite Hl' in IH.
-  unfold json_named_strings in *. cbn [jf_found jf_strs fold_right]. rewrite IH.
-  replace (json_raw_len_at data (len pre)) with (Some (len raw)) by (rewrite Hd; symmetry; apply json_raw_len_at_doc; exact Hv).
-  f_equal. destruct r as [|[[[raw2 post2] s2] l2] r2]; [reflexivity|]. cbn [jf_strs insert_asc fst].
-  pose proof (len_nonneg raw). pose proof (len_nonneg post).
-  replace (len pre <? len pre + len raw + 2 + len post) with true by lia. reflexivity.
+  rewrite json_named_strings_fold in *. cbn [jf_found jf_strs]. rewrite fold_right_app, IH.
+  apply json_named_field.
+  - rewrite Hd. apply json_raw_len_at_doc. exact Hv.
+  - pose proof (jf_strs_after r (len pre + len raw + 2 + len post)) as Ha.
+    destruct (jf_strs (len pre + len raw + 2 + len post) r) as [|q L]; [exact I|].
+    pose proof (len_nonneg raw). pose proof (len_nonneg post). lia.
 Qed.
 
 Lemma split_fields_doc : forall fs x at_,
   split_fields (x ++ jf_doc fs) at_ (jf_strs (at_ + len x) fs) = Some (x, jf_pairs fs).
 Proof.
-  induction fs as [|[[[raw post] strlen] limit] r IH]; intros x at_.
+  induction fs as [|[[[[raw post] strlen] limit] more] r IH]; intros x at_.
   - cbn. rewrite app_nil_r. reflexivity.
   - rewrite jf_doc_cons. cbn [jf_strs split_fields jf_pairs map].
     pose proof (len_nonneg x). pose proof (len_nonneg raw). pose proof (len_nonneg post). pose proof (len_nonneg (jf_doc r)).
@@ -661,9 +876,10 @@ Proof.
 Qed.
 
 Lemma jf_cut_is_cut_doc : forall fs,
-  jf_cut fs = cut_doc (jf_pairs fs) (map (fun '(raw, _, strlen, limit) => json_kept raw strlen limit) fs).
+  jf_cut fs = cut_doc (jf_pairs fs)
+                (map (fun '(raw, _, strlen, limit, more) => json_kept raw strlen (jf_limit limit more)) fs).
 Proof.
-  induction fs as [|[[[raw post] strlen] limit] r IH]; [reflexivity|].
+  induction fs as [|[[[[raw post] strlen] limit] more] r IH]; [reflexivity|].
   rewrite jf_cut_cons. cbn [jf_pairs map cut_doc]. f_equal. f_equal. f_equal. f_equal. exact IH.
 Qed.
 
@@ -675,9 +891,9 @@ Proof.
   eexists. split; [|rewrite jf_cut_is_cut_doc; reflexivity]. rewrite map_length. reflexivity.
 Qed.
 
-(* ---- two paths that resolve to the SAME string (e.g. a and \a): the positions overlap --------------- *)
-(* {"a":"0123456789","z":"tail"} with limits 3 and 5 on the one string: both positions are computed on
-   the original document, the second cut removes the closing quote and what follows it *)
+(* ---- two paths that resolve to the SAME string (e.g. a and \a): cut once, by the smaller limit ------- *)
+(* the document of the former counterexample (before a08bbd4 the second cut removed the closing quote
+   and what follows it): limits 3 and 5 on the one string, in both orders *)
 (* (last section of the file: String is imported only for the literals below) *)
 From Coq Require Import Strings.String.
 Local Open Scope string_scope.
@@ -687,13 +903,11 @@ Definition alias_post : bytes := bs ",""z"":""tail""}".
 Local Close Scope string_scope.
 Local Open Scope Z_scope.
 
-Theorem json_cut_many_aliased_refuted :
-  exists pre raw post strlen l1 l2 out,
-    esc_valid raw = true /\ 0 <= l1 /\ 0 <= l2 /\
-    json_cut_many (pre ++ QUOTE :: raw ++ QUOTE :: post) [(len pre, strlen, l1); (len pre, strlen, l2)] = Ok out /\
-    ~ cut_keeps_framing pre raw post out.
-Proof.
-  exists alias_pre, alias_raw, alias_post, 10, 3, 5. eexists.
-  split; [reflexivity|]. split; [lia|]. split; [lia|]. split; [vm_compute; reflexivity|].
-  intros [k Hk]. do 11 (try destruct k as [|k]); vm_compute in Hk; discriminate Hk.
-Qed.
+Lemma json_cut_many_aliased_repaired :
+  let doc := alias_pre ++ QUOTE :: alias_raw ++ QUOTE :: alias_post in
+  let out := Ok (alias_pre ++ QUOTE :: firstn 3 alias_raw ++ QUOTE :: alias_post) in
+  esc_valid alias_raw = true /\
+  json_cut_many doc [(len alias_pre, 10, 3); (len alias_pre, 10, 5)] = out /\
+  json_cut_many doc [(len alias_pre, 10, 5); (len alias_pre, 10, 3)] = out /\
+  json_cut_many doc [(len alias_pre, 10, 3); (len alias_pre, 10, 3)] = out.
+Proof. repeat split; vm_compute; reflexivity. Qed.
